@@ -97,12 +97,19 @@ package ociauth
 //@     (forall i int :: 0 <= i && i < len(s1.actions) ==> s1.actions[i] == s2.actions[i]) &&
 //@     (forall i int :: 0 <= i && i < len(s1.others) ==> s1.others[i] == s2.others[i]))
 
+// Len counts the elements of the set model: the unknown elements plus, per
+// repository entry, one for pull and one for push (a well-formed mask has no
+// other bits; the catalog entry, mask 2, counts once).
+//@ pure named func knownCount(s Scope, n int) int =
+//@   n <= 0 ? 0 : knownCount(s, n - 1) + (s.actions[n - 1] & 2 != 0 ? 1 : 0) + (s.actions[n - 1] & 4 != 0 ? 1 : 0)
 //@ func (Scope).Len
 //@   bytes bv
 //@   modifies nothing
 //@   requires !s.unlimited
 //@   loop 0 invariant 0 - 1 <= rangeindex && rangeindex < len(s.actions) && len(s.others) <= n && n <= len(s.others) + 8 * (rangeindex + 1)
+//@   loop 0 invariant wfRepos(s) ==> n == len(s.others) + knownCount(s, rangeindex + 1)
 //@   ensures[at-least-the-others-at-most-eight-per-repository] len(s.others) <= result && result <= len(s.others) + 8 * len(s.actions)
+//@   ensures[counts-the-elements] wfRepos(s) ==> result == len(s.others) + knownCount(s, len(s.actions))
 
 // Type invariant of Scope: its fields are unexported and every function of
 // the package that builds or changes a Scope value (the zero value,
@@ -155,7 +162,13 @@ package ociauth
 //@   requires wf(s) && yield0 != nil
 //@   yield-requires(x) yielded() > 0 ==> lessRS(yieldedAt(yielded() - 1), x)
 //@   yield-requires(x) holds(s, x)
+// (and, unless the consumer stops, as many elements are handed over as the set
+// model has: knownCount + the unknown ones; with order and membership above,
+// every element of the scope is therefore offered - by counting)
+//@   ensures[as-many-as-the-scope-has-unless-told-to-stop] stopped() || s.unlimited ||
+//@     yielded() == len(s.others) + knownCount(s, len(s.actions))
 //@   loop 0 invariant 0 - 1 <= rangeindex && rangeindex < len(s.repositories) && !stopped()
+//@   loop 0 invariant yielded() + len(others) == len(s.others) + knownCount(s, rangeindex + 1)
 //@   loop 0 invariant len(others) <= len(s.others) && (forall a int :: 0 <= a && a < len(others) ==> others[a] == s.others[len(s.others) - len(others) + a])
 //@   loop 0 invariant forall a, b int :: 0 <= a && a < b && b < len(others) ==> lessRS(others[a], others[b])
 //@   loop 0 invariant forall a int :: 0 <= a && a < len(others) ==> !others[a].isKnown()
@@ -164,6 +177,8 @@ package ociauth
 //@   loop 1 invariant !stopped() && repo != "" && 0 <= i && i < len(s.repositories) && repo == s.repositories[i]
 //@   loop 1 invariant len(others) <= len(s.others) && (forall a int :: 0 <= a && a < len(others) ==> others[a] == s.others[len(s.others) - len(others) + a])
 //@   loop 1 invariant acts == s.actions[i]
+//@   loop 1 invariant yielded() + len(others) == len(s.others) + knownCount(s, i) +
+//@     (k >= 2 && acts & 2 != 0 ? 1 : 0) + (k >= 3 && acts & 4 != 0 ? 1 : 0)
 //@   loop 1 invariant forall a, b int :: 0 <= a && a < b && b < len(others) ==> lessRS(others[a], others[b])
 //@   loop 1 invariant forall a int :: 0 <= a && a < len(others) ==> !others[a].isKnown()
 //@   loop 1 invariant yielded() > 0 && len(others) > 0 ==> lessRS(yieldedAt(yielded() - 1), others[0])
@@ -171,12 +186,14 @@ package ociauth
 //@     (yieldedAt(yielded() - 1).ResourceType == TypeRepository && (yieldedAt(yielded() - 1).Resource < repo ||
 //@       (yieldedAt(yielded() - 1).Resource == repo && (k >= 3 || (k == 2 && yieldedAt(yielded() - 1).Action < ActionPush)))))
 //@   loop 2 invariant 0 - 1 <= rangeindex#1 && rangeindex#1 < len(others) && !stopped()
+//@   loop 2 invariant yielded() + len(others) - (rangeindex#1 + 1) == len(s.others) + knownCount(s, len(s.actions))
 //@   loop 2 invariant len(others) <= len(s.others) && (forall a int :: 0 <= a && a < len(others) ==> others[a] == s.others[len(s.others) - len(others) + a])
 //@   loop 2 invariant forall a, b int :: 0 <= a && a < b && b < len(others) ==> lessRS(others[a], others[b])
 //@   loop 2 invariant yielded() > 0 && rangeindex#1 + 1 < len(others) ==> lessRS(yieldedAt(yielded() - 1), others[rangeindex#1 + 1])
 //@ func (Scope).Iter$1$1
 //@   inline
 //@   loop 0 invariant !stopped()
+//@   loop 0 invariant yielded() + len(others) == atEntry(yielded() + len(others))
 //@   loop 0 invariant len(others) <= len(s.others) && (forall a int :: 0 <= a && a < len(others) ==> others[a] == s.others[len(s.others) - len(others) + a])
 //@   loop 0 invariant forall a, b int :: 0 <= a && a < b && b < len(others) ==> lessRS(others[a], others[b])
 //@   loop 0 invariant forall a int :: 0 <= a && a < len(others) ==> !others[a].isKnown()
